@@ -20,6 +20,7 @@ TInit == /\ tid \in 1..Len(Batch) /\ l = 1 /\ bad = {} /\ dead = FALSE
          /\ pc = "idle" /\ closed = FALSE /\ ops = 0
          /\ lastop = "none" /\ lastret = <<>> /\ lastexp = <<>>
          /\ ev = Event("init", "none", 0, <<>>, 0, 0)
+         /\ wx = [start |-> <<>>, restore |-> <<>>, viaflush |-> FALSE, wpos |-> 0, fails |-> 0, err |-> FALSE]
 IsRead(e)  == e.op \in {"read", "readline"}
 IsWrite(e) == e.op \in {"write", "flush", "close"}
 Unreturned == Drop(src, Len(returned))
@@ -35,14 +36,24 @@ TNext == /\ l <= Len(T.events) /\ l' = l + 1 /\ tid' = tid
               /\ sink' = sink \o e.sunk
               /\ lastexp' = IF e.op = "read" THEN RefRead(Unreturned, e.n)
                             ELSE IF e.op = "readline" THEN RefLine(Unreturned, e.n) ELSE <<>>
+              \* e.inject: the driver made the stream's _write raise during this call (1: before it took a byte of the
+              \* running _write_all, 2: after it took some); the call must then raise (the error is reported) and every
+              \* later flush / close that returns must still have delivered everything, once, in order.  wx.fails sums
+              \* the injections (>= 2: some came after a partial push - 4.0.0 then sends the first part again, which the
+              \* statement does not clearly forbid: conformance only)
+              /\ wx' = [wx EXCEPT !.fails = @ + e.inject, !.err = e.raised]
               /\ bad' = IF dead THEN {} ELSE
-                          (IF e.raised THEN {"P_call_raised"} ELSE {})
+                          (IF e.raised /\ e.inject = 0 THEN {"P_call_raised"} ELSE {})
+                     \cup (IF ~e.raised /\ e.inject > 0 THEN {"C_stream_error_swallowed"} ELSE {})
                      \cup (IF IsRead(e) /\ ~e.raised THEN ReadBad(e.op, e.n, Unreturned, e.ret) ELSE {})
-                     \cup (IF IsWrite(e) /\ ~e.raised THEN WriteBad(e.op, Buf, written', sink') ELSE {})
+                     \cup (IF IsWrite(e) /\ ~e.raised
+                           THEN LET wb == WriteBad(e.op, Buf, written', sink') \ (IF wx'.fails > 0 THEN AfterFailure ELSE {})
+                                IN IF wx'.fails >= 2 /\ wb # {} THEN {"C_resent_after_partial_failure"} ELSE wb
+                           ELSE {})
                      \cup (IF ~e.raised /\ ~ReadConservation' THEN {"C_read_conservation"} ELSE {})
                      \cup (IF ~e.raised /\ ~WriteConservation' THEN {"C_write_conservation"} ELSE {})
                      \cup (IF IsRead(e) /\ ~e.raised /\ e.ret # lastexp' THEN {"C_differs_from_reference"} ELSE {})
-              /\ dead' = (dead \/ e.raised \/ (IsRead(e) /\ ~IsPrefix(e.ret, Unreturned))
+              /\ dead' = (dead \/ (e.raised /\ e.inject = 0) \/ (IsRead(e) /\ ~IsPrefix(e.ret, Unreturned))
                                \/ ~IsPrefix(sink', written'))
 TSpec == TInit /\ [][TNext]_tvars
 Report == /\ (bad # {} => PrintT(<<"VERDICT", tid, l - 1, T.events[l - 1].op, bad>>))
